@@ -11,6 +11,9 @@ ID = "C03"
 LEVEL = "proof"
 HARNESSES = [
     {"name": "main", "src": "harness.cpp", "flags": ["-O1", "-DTETL_ENABLE_CONTRACT_CHECKS=1"]},
+    # the same histories under ASan + UBSan (a report = `crash` = disagreement with the model)
+    {"name": "asan", "src": "harness.cpp", "flags": ["-O1", "-g", "-fsanitize=address,undefined", "-fno-sanitize-recover=all",
+                                                      "-DTETL_ENABLE_CONTRACT_CHECKS=1"], "thorough_only": True},
 ]
 RULE = ("a case = a whole operation history on two objects of one family, from their construction to both destructors, run three "
         "times: lifecycle projection (hist), complete event order (rawhist), monitor verdict (mon). Families: static_vector / "
@@ -208,7 +211,7 @@ OWN_KINDS = {
     "exp": ([0, 1], ["cm", "m", "c"]),
     "fun": ([0, 1, 2], ["cm", "c"]),
 }
-OWN_COPY_OPS = ("vac", "vca", "vsc", "vcc")
+OWN_COPY_OPS = ("vac", "vca", "vsc", "vcc", "vvc", "voc")
 
 
 def own_both(family, ops):
@@ -236,12 +239,13 @@ def own_alphabet(kind, x):
             for j in idx:
                 ops += [f"vem {t} {j} {x}", f"var {t} {j} {x}", f"vac {t} {j} {x}", f"vat {t} {j} {x}"]
         elif kind == "opt":
-            ops += [f"vem {t} 0 0", f"vem {t} 1 {x}", f"vav {t} 1 {x}", f"vav {t} 0 0", f"vat {t} 0 0", f"vat {t} 1 {x}"]
+            ops += [f"vem {t} 0 0", f"vem {t} 1 {x}", f"vav {t} 1 {x}", f"vav {t} 0 0", f"vat {t} 0 0", f"vat {t} 1 {x}",
+                    f"vvc {t} 1 {x}", f"vvm {t} 1 {x}", f"voc {t}", f"vom {t}"]
         elif kind == "exp":
-            ops += [f"vem {t} 0 {x}", f"vat {t} 0 {x}", f"vat {t} 1 {x}"]
+            ops += [f"vem {t} 0 {x}", f"vat {t} 0 {x}", f"vat {t} 1 {x}", f"vvc {t} 0 {x}", f"vvm {t} 0 {x}"]
         else:
             ops += [f"fas {t} 1 {x}", f"fas {t} 2 {x}", f"fan {t}", f"fca {t}", f"fma {t}", f"fsc {t}", f"fsm {t}", f"fcc {t}", f"fmc {t}",
-                    f"fss {t}", f"fiv {t}"]
+                    f"fss {t}", f"fiv {t}", f"fxc {t}", f"fxm {t}"]
         if kind != "fun":
             ops += [f"vca {t}", f"vma {t}", f"vsc {t}", f"vsm {t}", f"vcc {t}", f"vmc {t}", f"vss {t}"]
     ops.append("fsw" if kind == "fun" else "vsw")
@@ -367,7 +371,7 @@ def gen_agg(tier, rng):
     quick = tier == "quick"
     out = []
     alpha = [f"{o} {t}" for o in ("aca", "ama", "asc", "asm", "acc", "amc", "ass") for t in (0, 1)] + ["asw"]
-    for kind in ("pr", "tp"):
+    for kind in ("pr", "tp", "ar"):
         for fl in ("cm", "m", "c"):
             fam = f"{kind}_{fl}"
             al = [o for o in alpha if not (fl == "m" and o.split()[0] in AGG_COPY)]
